@@ -237,6 +237,14 @@ func runC11(rc *RunCtx) {
 					mk(a, fmt.Sprintf("out%d", a))
 					mk(a, fmt.Sprintf("out%d_again", a))
 				}
+				if t.Chance(2, 3) {
+					// a hand-made list is in whatever order the application wrote it: fields outside the window may come
+					// before fields inside it (wave 14)
+					for k := len(fs) - 1; k > 0; k-- {
+						j := t.Choose(k + 1)
+						fs[k], fs[j] = fs[j], fs[k]
+					}
+				}
 				hand := modbus.BuilderRequest{Request: r0.Request, ServerAddress: r0.ServerAddress, UnitID: r0.UnitID, StartAddress: r0.StartAddress, Fields: fs}
 				hv, _ := hand.ExtractFields(resps[0], true)
 				handVals, handBase, handBits = hv, base, npay
@@ -367,6 +375,9 @@ func runC11(rc *RunCtx) {
 			a := int(fv.Field.Address)
 			inside := a >= handBase && a < handBase+handBits
 			switch {
+			case inside && fv.Error != nil && a < handBase+builderQuantity(&builderReqs[0]):
+				// an error for a coil the response holds is not explained by the byte-order finding, whatever the payload size
+				rc.Violate("spurious_bounds_error", sigBase+"|hand_made_fields", "coil field %s at %d lies inside the response window [%d,%d) but extraction reports %v", fv.Field.Name, a, handBase, handBase+handBits, fv.Error)
 			case inside && (fv.Error != nil || fv.Value != any(dev.Bit(tab, fv.Field.Address))):
 				if a < handBase+builderQuantity(&builderReqs[0]) { // (padding bits are the device's zeros; the known byte-order finding is reported by the main comparison)
 					if handBits <= 8 {
